@@ -16,5 +16,7 @@ mod writer;
 pub use builder::WalrusBuilder;
 pub use index::{BlockPos, WalIndex};
 pub use walrus::{ReadConsistency, Walrus};
+#[cfg(walrus_verif)]
+pub(crate) use allocator::verif_file_states;
 
 pub(super) static DELETION_TX: OnceLock<Arc<mpsc::Sender<String>>> = OnceLock::new();
